@@ -640,6 +640,16 @@ def interleaved_generators(ctx, rng):
             want = {'A': [b'A1;', b'A2;', b'A3;'], 'B': [b'B1;', b'B2;', b'B3;'], 'wholeA': b'Aw1;Aw2;', 'wholeB': b'Bw1;Bw2;'}
             if out != want:
                 ctx.violation('C06.SameAsAlone', dict(kind='two device objects alive at once, streams with coinciding ids', mode=mode, variant=k, observed={a: repr(b)[:100] for a, b in out.items()}))
+    # design: a task is cancelled at an await while the streams are at a message boundary (AdbCancel); the sanity mutation (a yield with
+    # a packet in hand) must lose a packet
+    for (tasks, per, mut) in (('{"a","b"}', 2, False), ('{"a","b","c"}', 2, False), ('{"a","b"}', 3, False), ('{"a","b"}', 2, True)):
+        cfg_ = tlc.cfg_text(constants={'Tasks': tasks, 'PerStream': str(per), 'YieldAfterRead': 'TRUE' if mut else 'FALSE'}, invariants=['NoLoss', 'LockOwnerAlive', 'Drained'], deadlock=False)
+        r_ = tlc.cached_run('AdbCancel', cfg_, depends=('AdbCancel',))
+        ctx.add_tlc(r_, 'AdbCancel tasks=%s x %d packets%s' % (tasks, per, ' sanity mutation YieldAfterRead (must violate)' if mut else ''))
+        if mut and not r_.violations:
+            raise tlc.TlcError('vacuity: AdbCancel with a yield after the read does not lose a packet')
+        if not mut and r_.violations:
+            ctx.violation('C06.' + r_.violations[0]['name'] + '(design)', dict(kind='design-counterexample', spec='AdbCancel', trace=r_.violations[0]['trace'][-3:]))
     ncancel = 0
     for bop in ('shell', 'stat', 'pull'):
         for k in range(1, 40 if ctx.quick else 120):
